@@ -130,15 +130,18 @@ FailSuspended(M, t, v) ==
   IN TaskDoneEv(M4, t, v, u)
 
 (* ---------------- batches -------------------------------------------------------------------- *)
+NewBatchOnly(M, kind) ==
+  LET n == M.bcount[kind] + 1
+      bid == kind * 1000 + n
+  IN Ev(SetOut([M EXCEPT !.bcount[kind] = n, !.cur[kind] = bid,
+                         !.bt = Upd(@, bid, [kind |-> kind, items |-> <<>>, st |-> "pending"])], bid, FALSE, VNone, 0),
+        [e |-> "NewBatch", b |-> bid, a |-> kind])
+
 NewItem(M, kind, fid, t) ==
   LET needB == M.cur[kind] = 0
       n == M.bcount[kind] + 1
       bid == IF needB THEN kind * 1000 + n ELSE M.cur[kind]
-      M1 == IF needB
-            THEN Ev([M EXCEPT !.bcount[kind] = n, !.cur[kind] = bid,
-                              !.bt = Upd(@, bid, [kind |-> kind, items |-> <<>>, st |-> "pending"])],
-                    [e |-> "NewBatch", b |-> bid, a |-> kind])
-            ELSE M
+      M1 == IF needB THEN NewBatchOnly(M, kind) ELSE M
       M2 == [M1 EXCEPT !.bt[bid].items = Append(@, fid), !.ib = Upd(@, fid, bid)]
   IN Ev(SetOut(M2, fid, FALSE, VNone, 0), [e |-> "NewItem", a |-> fid, b |-> bid, t |-> t])
 
@@ -178,7 +181,8 @@ FlushBatch(M, b, by) ==
              ELSE LET u == MM.uidc + 1 IN Rest(DoneEv([MM EXCEPT !.uidc = u], f, VX(40000), u), i + 1)
       M4 == Rest(M3, 1)
       M5 == [M4 EXCEPT !.bt[b].st = "flushed"]
-  IN Ev(M5, [e |-> "BatchDone", b |-> b, a |-> IF raised THEN 1 ELSE 0])
+      M6 == Ev(M5, [e |-> "BatchDone", b |-> b, a |-> IF raised THEN 1 ELSE 0])
+  IN IF raised THEN DoneEv(M6, b, VX(30000 + kind), eu) ELSE DoneEv(M6, b, VNone, 0)     \* the batch itself is a future
 
 (* ---------------- building a yielded structure (harness Run.build, left to right) ------------- *)
 RECURSIVE Build(_, _, _, _, _, _)
@@ -196,6 +200,9 @@ Build(M, t, k, s, p, tab) ==  \* -> [M, s (resolved), p (last leaf position used
            [M |-> M, s |-> IF e.g \in {"N", "Bad"} THEN Val(e.g, 0, <<>>) ELSE Val("F", e.f, <<>>), p |-> p + 1]
       [] s.g = "T"   -> [M |-> IF M.tk[s.n].st = "absent" THEN CreateTask(M, s.n, t, TRUE) ELSE M,
                          s |-> Val("F", s.n, <<>>), p |-> p + 1]
+      [] s.g = "B"   ->      \* the pending batch object of that kind itself
+           LET M1 == IF M.cur[s.n] = 0 THEN NewBatchOnly(M, s.n) ELSE M
+           IN [M |-> M1, s |-> Val("F", M1.cur[s.n], <<>>), p |-> p + 1]
       [] s.g = "D"   ->      \* DeduplicateDecorator.asynq for call site s.n
            LET K == DedupKey(P, s.n)
                w == IF K \in DOMAIN M.reg THEN M.reg[K] ELSE 0
@@ -321,7 +328,7 @@ RunOps(M, F, t, k, i) ==
                     Rest(MM, j) == IF j > Len(items) THEN MM
                                    ELSE IF IsDone(MM, items[j]) THEN Rest(MM, j + 1)
                                    ELSE Rest(DoneEv(MM, items[j], VX(32000 + o.a), u), j + 1)
-                    M1 == Ev(Rest(M0, 1), [e |-> "BatchDone", b |-> b, a |-> 1])
+                    M1 == DoneEv(Ev(Rest(M0, 1), [e |-> "BatchDone", b |-> b, a |-> 1]), b, VX(32000 + o.a), u)
                 IN RunOps(M1, F, t, k, i + 1)
       [] o.o = "fail" ->          \* another task is completed with an error from outside (set_error), if it is pending and not running
            IF M.tk[o.a].st = "created" /\ ~IsDone(M, o.a) /\ o.a \notin M.running /\ ~M.tk[o.a].cact
@@ -443,6 +450,9 @@ StepM(M, F, choice) ==
                  ELSE IF f \in DOMAIN M.ib THEN
                         \* a batch item: _schedule_batch, pop
                         [M |-> [popped EXCEPT !.sbat = IF M.bt[M.ib[f]].st = "flushed" THEN @ ELSE @ \cup {M.ib[f]}], F |-> F]
+                 ELSE IF f \in DOMAIN M.bt THEN
+                        \* a batch object some task waits for: BatchBase._compute, i.e. flushed on the spot (no flush events)
+                        [M |-> FlushBatch(popped, f, 0), F |-> F]
                  ELSE \* any other future: computed inline (Future(provider))
                       LET M1 == Ev(popped, [e |-> "Provider", a |-> f]) IN
                       IF M.lz[f] = "L" THEN [M |-> DoneEv(M1, f, VIv(f), 0), F |-> F]
